@@ -65,6 +65,11 @@ type rcScenario struct {
 	RelOut  int      `json:"relout"` // outside released() calls offered per handle
 	CbOuts  []string `json:"cbouts"` // Access callback outcomes offered
 	MaxRes  int      `json:"maxres"` // bound of the X spec (not enforced by the driver)
+	// >0: the value of that resolver call (if it resolves to a value) is the zero value of T. A zero
+	// value handed to a callback that says "resolved, no error", returned by Wait/Resolve or passed to
+	// an Access callback is unambiguously that call's value (one such call per run); the target
+	// container cannot tell it from "empty" (the monitor is told through `zero` on the leave event).
+	ZeroCall int `json:"zerocall"`
 }
 
 type rcErr struct{ n int }
@@ -147,6 +152,9 @@ func genRefcount(x *sched.Exec) rcScenario {
 	r := x.Rng
 	sc := rcScenario{Keep: r.Intn(2) == 0, RelOut: 1 + r.Intn(2), CbOuts: []string{"nil", "err"}}
 	sc.Outs = [][]string{{"val", "err"}, {"val", "valnr", "err", "errrel"}, {"val"}, {"val", "errrel"}}[r.Intn(4)]
+	if r.Intn(3) == 0 {
+		sc.ZeroCall = 1 + r.Intn(3)
+	}
 	n := 2 + r.Intn(3)
 	consumers := r.Intn(3) != 0
 	for i := 0; i < n; i++ {
@@ -258,7 +266,8 @@ func (d *rcDriver) resolver(ctx context.Context, released func()) (int, func(), 
 	if isVal {
 		kind = "val"
 	}
-	d.x.Log(trace.E{"ev": "leave", "n": n, "out": kind, "rel": withRel, "ctxdone": ctx.Err() != nil})
+	zero := isVal && n == d.sc.ZeroCall
+	d.x.Log(trace.E{"ev": "leave", "n": n, "out": kind, "rel": withRel, "ctxdone": ctx.Err() != nil, "zero": zero})
 	var rel func()
 	if withRel {
 		rel = func() {
@@ -270,6 +279,9 @@ func (d *rcDriver) resolver(ctx context.Context, released func()) (int, func(), 
 		// scenario generators: the monitor identifies a value by its resolver call, and a consumer that
 		// still holds an older generation's (equal) value cannot be attributed (tried; AccessWrongVal
 		// false alarms) -- kept for experiments only.
+		if zero {
+			return 0, rel, nil
+		}
 		rv := n
 		d.mu.Lock()
 		if out == "valsame" && d.lastVal != 0 && d.nActive() == 0 {
@@ -296,6 +308,14 @@ func (d *rcDriver) cn(v int) int {
 	return v
 }
 
+// cnz is cn for a value that certainly is a resolved value (see rcScenario.ZeroCall).
+func (d *rcDriver) cnz(v int) int {
+	if v == 0 && d.sc.ZeroCall > 0 {
+		return d.sc.ZeroCall
+	}
+	return d.cn(v)
+}
+
 // refCallback builds the callback of a plain reference.
 func (d *rcDriver) refCallback(ref int, kind string) func(bool, int, error) {
 	if kind == "nil" {
@@ -303,7 +323,11 @@ func (d *rcDriver) refCallback(ref int, kind string) func(bool, int, error) {
 	}
 	fired := false
 	return func(resolved bool, val int, err error) {
-		val = d.cn(val)
+		if resolved && err == nil {
+			val = d.cnz(val)
+		} else {
+			val = d.cn(val)
+		}
 		_, en := errID(err)
 		if err != nil && en == 0 {
 			en = -2
@@ -439,7 +463,7 @@ func (d *rcDriver) opFunc(c *rcClient, pi int, op rcOp) sched.Op {
 					return
 				}
 				d.register(c, pi, id, rel)
-				x.Log(trace.E{"ev": "ret", "id": id, "res": "ok", "val": d.cn(val), "err": 0, "actor": name})
+				x.Log(trace.E{"ev": "ret", "id": id, "res": "ok", "val": d.cnz(val), "err": 0, "actor": name})
 			})
 		}}
 	case "access":
@@ -456,7 +480,7 @@ func (d *rcDriver) opFunc(c *rcClient, pi int, op rcOp) sched.Op {
 				err := d.rc.Access(ctx, func(cctx context.Context, val int) error {
 					k++
 					kk := k
-					x.Log(trace.E{"ev": "cbenter", "id": id, "k": kk, "val": d.cn(val)})
+					x.Log(trace.E{"ev": "cbenter", "id": id, "k": kk, "val": d.cnz(val)})
 					d.mu.Lock()
 					c.incb, c.cbctx = true, cctx
 					d.mu.Unlock()
